@@ -5,6 +5,10 @@ ROOT = os.path.dirname(os.path.dirname(os.path.abspath(__file__)))
 
 # id -> (level, technique, level text, level note, design ref)
 CLAIMED = {
+ "C12": ("exploration", "runtime monitoring: reflection-based projection oracle over run-time derived target struct types (delete/permute/add edits at any depth), six conversion entry points",
+         "Held on every explored (source type, edited target type, rows, entry point) except the recorded known findings F34/F35: rows read through NewReader(file, schema), ConvertRowGroup (rows and column chunks), ConvertRowReader, CopyRows and MergeRowGroups(schema) equal the projection of the source rows - common columns and nesting identical, added columns nil/zero, count and order unchanged - for <= 4 edits incl. inside lists, nested groups and map values. Sampling: exploration.",
+         "Field matching by column name. Common leaves keep their Go type. Incompatibility probing is limited to repeated->scalar targets (recorded as known finding F34: accepted, elements dropped).",
+         "DESIGN.md §4 C12"),
  "C11": ("exploration", "runtime monitoring: A/B oracle (rows of dst.WriteRowGroup(src) vs src.Rows() read beforehand) with independent decoding of the produced file, destination-setting checks, and hook counters proving which fast path ran",
          "Held on every explored (source, source config, destination config): sources = file row group, buffer, row-range view, MultiRowGroup, merged (overlapping and not), dedup wrapper, converted, and a foreign RowGroup whose Rows() reverses the rows; destinations = same config or one setting changed (codec, page version, default encoding, page size, MaxRowsPerRowGroup, bloom filters). The file's rows (library reader and specreader) equal src.Rows(), the file is well-formed, and it honours the destination codec/version/encoding/bloom/row-group size; evidence counts verbatim-copy, column re-encode and row-path executions from the library's own counters. Sampling: exploration.",
          "Path counters and the row-range constructor are reached through verif-tagged accessors (verif_hooks_on.go). Columns whose struct tag pins a codec/encoding are exempt from the corresponding destination-default check.",
